@@ -198,6 +198,50 @@ fn piped_scn(subscribe_on: bool, source_thread: bool, q: Option<u32>, t: Option<
   })
 }
 
+/// to_vec over a source whose completion is decided between two threads: `a.merge(&[b]).to_vec()`
+fn merged_scn(q: Option<u32>, t: Option<u32>) -> Scn {
+  scn("c18/merge of two source threads P(n1,C)||P(n2,C) .to_vec()", "to_vec", q, t, move || {
+    let out: Arc<Mutex<Option<Result<Vec<i64>, i64>>>> = Arc::new(Mutex::new(None));
+    let out2 = out.clone();
+    let body: Body = Box::new(move || {
+      let mk = |v: i64| -> Observable<'static, i64> {
+        Observable::create(move |s| {
+          thread::spawn(move || {
+            s.next(v);
+            s.complete();
+          });
+        })
+      };
+      let (r, _, _) = block_on(mk(1).merge(&[mk(2)]).to_vec(), 0);
+      *out2.lock().unwrap() = Some(match r {
+        Ok(v) => Ok(v.read().unwrap().clone()),
+        Err(e) => Err(err_code(&e)),
+      });
+    });
+    let check: Check = Box::new(move |e: &ExecEnd| {
+      let mut v = base_violations(e, &[]);
+      let o = out.lock().unwrap();
+      match &*o {
+        None => {
+          if v.is_empty() {
+            v.push(viol("future-never-ready", format!("block_on did not return although both sources have completed; threads {}", thread_summary(e))));
+          }
+        }
+        Some(Ok(items)) => {
+          let mut s = items.clone();
+          s.sort();
+          if s != vec![1, 2] {
+            v.push(viol("wrong-result", format!("to_vec yielded {:?}, want the items 1 and 2", items)));
+          }
+        }
+        Some(Err(k)) => v.push(viol("wrong-result", format!("to_vec yielded Err({})", k))),
+      }
+      Verdict { outcome: format!("{:?}", *o), violations: v }
+    });
+    (body, check)
+  })
+}
+
 pub fn scenarios() -> Vec<Scn> {
   use Emit::*;
   vec![
@@ -208,6 +252,7 @@ pub fn scenarios() -> Vec<Scn> {
     tovec_scn(vec![E(7)], false, Some(3), Some(6)),
     tovec_scn_x(vec![N(1), C], false, 1, Some(3), Some(5)),
     tovec_scn_x(vec![N(1), E(7)], false, 2, Some(2), Some(4)),
+    merged_scn(Some(2), Some(3)),
     piped_scn(false, true, Some(1), Some(2)),
     piped_scn(false, false, Some(1), Some(2)),
     piped_scn(true, false, Some(1), Some(2)),
